@@ -399,6 +399,67 @@ Definition srv_register (v : ver) (owner : str) (now : Z) (s : secret) (l : list
   let u := s_next st in
   Ok (mkS (s_rows st ++ [(u, sql_out p)]) (u + 1) (Some u), u).
 
+Definition secret_alg_ (s : secret) : option Z := match s with SKey _ kb | SSplit kb _ => kb_alg kb | _ => None end.
+Definition secret_len_ (s : secret) : option Z := match s with SKey _ kb | SSplit kb _ => kb_len kb | _ => None end.
+
+(* ------------------------------------------------------------------ 6b. objects made from templates: Create, DeriveKey, CreateKeyPair
+   The generated key material (and, for pairs, the key format chosen by the cryptography engine) is an input of the model;
+   everything else the server stores comes from the template(s), through the same attribute path as Register
+   (engine._process_create / _process_derive_key / _process_create_key_pair: build the pie object from algorithm and length,
+   names := [], _set_attributes_on_managed_object with the whole attribute dictionary, one commit). *)
+Inductive ckind := KCreate | KDeriveSym | KDeriveSecret.
+
+Definition made_secret (k : ckind) (mat : bytes) (l : list tattr) : res secret :=
+  match k with
+  | KCreate =>                       (* algorithm, length and usage mask are mandatory *)
+      match sel_alg l, sel_len l, sel_mask l with
+      | Some a, Some n, Some _ => Ok (SKey CSym (mkKB KFT_RAW mat (Some a) (Some n) None))
+      | _, _, _ => Err
+      end
+  | KDeriveSym =>                    (* algorithm and length are mandatory; the length must be a whole number of bytes *)
+      match sel_alg l, sel_len l with
+      | Some a, Some n => if n mod 8 =? 0 then Ok (SKey CSym (mkKB KFT_RAW mat (Some a) (Some n) None)) else Err
+      | _, _ => Err
+      end
+  | KDeriveSecret =>
+      match sel_len l with
+      | Some n => if n mod 8 =? 0 then Ok (SSecret SDT_SEED (mkKB KFT_OPAQUE mat None None None)) else Err
+      | None => Err
+      end
+  end.
+(* DeriveKey of Secret Data deletes the Cryptographic Length entry before setting the attributes *)
+Definition made_attrs (k : ckind) (l : list tattr) : list tattr :=
+  match k with
+  | KDeriveSecret => filter (fun t => match ta_val t with TLen _ => false | _ => true end) l
+  | _ => l
+  end.
+Definition srv_make (k : ckind) (v : ver) (owner : str) (now : Z) (mat : bytes) (l : list tattr) (st : store) : res (store * Z) :=
+  do s <- made_secret k mat l; srv_register v owner now s (made_attrs k l) st.
+
+(* CreateKeyPair (KMIP 4.2): per key, an attribute of the key's own template wins over the same attribute of the common template;
+   attributes are resolved by name, so all instances of a multi-valued attribute come from one template, in its order *)
+Definition has_attr (a : nat) (l : list tattr) : bool := negb (Nat.eqb (count_attr a l) 0).
+Definition resolve (common spec : list tattr) : list tattr :=
+  spec ++ filter (fun t => negb (has_attr (tval_attr (ta_val t)) spec)) common.
+Definition pair_secret (c : oclass) (fmt : Z) (mat : bytes) (l : list tattr) : res secret :=
+  match sel_alg l, sel_len l, sel_mask l with
+  | Some a, Some n, Some _ => Ok (SKey c (mkKB fmt mat (Some a) (Some n) None))
+  | _, _, _ => Err
+  end.
+Definition srv_make_pair (v : ver) (owner : str) (now : Z) (fu : Z) (mu : bytes) (fr : Z) (mr : bytes)
+                         (lc lu lr : list tattr) (st : store) : res (store * (Z * Z)) :=
+  if negb (template_ok v [] (wire_attrs v lc) && template_ok v [] (wire_attrs v lu) && template_ok v [] (wire_attrs v lr)) then Err
+  else
+    let ru := resolve lc lu in
+    let rr := resolve lc lr in
+    do su <- pair_secret CPub fu mu ru;
+    do sr <- pair_secret CPriv fr mr rr;
+    if negb (opt_eqb Z.eqb (secret_alg_ su) (secret_alg_ sr) && opt_eqb Z.eqb (secret_len_ su) (secret_len_ sr)) then Err
+    else
+      do x1 <- srv_register v owner now su ru st;
+      do x2 <- srv_register v owner now sr rr (fst x1);
+      Ok (fst x2, (snd x1, snd x2)).
+
 Definition srv_get (st : store) (u : Z) : res secret :=
   match find_row u (s_rows st) with None => Err | Some r => pie_to_core (sql_in r) end.
 
@@ -451,7 +512,9 @@ Inductive hop :=
 | HActivate (u : Z)                            (* one UPDATE of crypto_objects.state *)
 | HDestroy (u : Z)                             (* DELETE of the addressed base row *)
 | HRestart                                     (* new engine object on the same database file *)
-| HForeign.                                    (* Create / CreateKeyPair / DeriveKey ...: a new object this model does not describe; it takes the next identifier *)
+| HForeign                                     (* an operation this model does not describe that takes the next identifier *)
+| HMake (k : ckind) (v : ver) (owner : str) (now : Z) (mat : bytes) (l : list tattr)           (* Create / DeriveKey *)
+| HMakePair (v : ver) (owner : str) (now : Z) (fu : Z) (mu : bytes) (fr : Z) (mr : bytes) (lc lu lr : list tattr).   (* CreateKeyPair *)
 
 Definition step (st : store) (h : hop) : store :=
   match h with
@@ -464,6 +527,8 @@ Definition step (st : store) (h : hop) : store :=
   | HDestroy u => mkS (remove_row u (s_rows st)) (s_next st) (s_placeholder st)
   | HRestart => mkS (s_rows st) (s_next st) None
   | HForeign => mkS (s_rows st) (s_next st + 1) (Some (s_next st))
+  | HMake k v o n mat l => match srv_make k v o n mat l st with Ok (st', _) => st' | Err => st end
+  | HMakePair v o n fu mu fr mr lc lu lr => match srv_make_pair v o n fu mu fr mr lc lu lr st with Ok (st', _) => st' | Err => st end
   end.
 Definition run (st : store) (h : list hop) : store := fold_left step h st.
 
